@@ -176,6 +176,7 @@ func (ii intInfo) wrap(t *Term) *Term {
 }
 
 func typeName(t types.Type) string {
+	t = types.Unalias(t) // an alias and the type it stands for share their heaps
 	s := types.TypeString(t, func(p *types.Package) string { return p.Name() })
 	var b strings.Builder
 	for _, r := range s {
